@@ -92,6 +92,14 @@ func (e *Engine) callFn(st *State, fr *Frame, fn *ssa.Function, args []Val, clo 
 				continue
 			}
 			ctx := e.frameCtx(st, fr, fr.blk)
+			// the actual arguments of the call (receiver first) are available as arg0, arg1, ...
+			for i, a := range args {
+				av := a
+				if i < len(fn.Params) {
+					av.T = fn.Params[i].Type()
+				}
+				ctx.env[fmt.Sprintf("arg%d", i)] = av
+			}
 			g := e.evalBool(ctx, cl.Expr)
 			e.curClause = cl
 			e.oblige(st, "atcall", fmt.Sprintf("atcall@%s#%d", cl.Name, cl.Ord), g, in.Pos(), cl.Props, cl.Text)
